@@ -27,7 +27,7 @@ LEVEL_TEXT = ('Every family of the alphabet is run to convergence and the return
 LEVEL_NOTE = '"Run to convergence" is decided at iters=5000, convergence=1e-10; thresholds 1e-7 (calibrated residuals on the unchanged tree: 3e-11 / 5e-14).'
 ASSUMPTIONS = ['numpy.linalg.lstsq trusted', 'the same attribute set written twice in different orders is outside the alphabet']
 
-SIZES = [2, 3, 2, 2]
+SIZES = [2, 3, 2, 2, 2]
 EXTRA4 = {
     'chain4': [('A', 'B'), ('B', 'C'), ('C', 'D')],
     'star4': [('A', 'B'), ('A', 'C'), ('A', 'D')],
@@ -40,6 +40,11 @@ EXTRA4 = {
     'triples-single': [('A', 'B', 'C'), ('B', 'C', 'D'), ('C',)],
     'triples-pair-single': [('A', 'B', 'C'), ('B', 'C', 'D'), ('C', 'D'), ('D',)],
     'window3': [('A', 'B', 'C'), ('B', 'C', 'D'), ('A', 'C', 'D')],
+    # a region (A) with two parents that each have a strict super-region but share none: the pruning of
+    # region-graph edges (minimal=True) must keep both
+    'two-nested-branches': [('A', 'B'), ('A', 'B', 'C'), ('A', 'D'), ('A', 'D', 'E')],
+    'two-nested-branches-4': [('A', 'B'), ('A', 'B', 'C'), ('A', 'D'), ('A', 'C', 'D')],
+    'three-branches': [('A', 'B'), ('A', 'B', 'C'), ('A', 'D'), ('A', 'D', 'E'), ('A', 'E')],
 }
 
 
@@ -73,8 +78,9 @@ def jobs(tier, seed):
         if name == 'four-triples' and tier == 'quick':
             continue
         cfgs = [(0.5, True, 'all', 10.0), (0.2, False, 'all', 10.0)] if tier == 'quick' else [(d, m, 'all', 10.0) for d in (0.2, 0.5, 0.8) for m in (True, False)]
+        k = 5 if any('E' in c for c in fam) else 4
         for cfg in cfgs:
-            out.append({'k': 4, 'fam': [list(c) for c in fam], 'present': 'asis', 'cfgs': [cfg], 'seed': seed})
+            out.append({'k': k, 'fam': [list(c) for c in fam], 'present': 'asis', 'cfgs': [cfg], 'seed': seed})
     return out
 
 
